@@ -158,6 +158,45 @@ func VerifC20Apply(srv *Server, h *HttpServer, t VerifC20Toggles, echo map[strin
 	return nil
 }
 
+// VerifC20ExternalHows lists the ways VerifC20SetExternal can leave a server's
+// external-location configuration, with the class each ends in: "none" (no
+// config), "resolve" (config present, no Storage backend: the server resolves
+// client-externalised inputs but never externalises) or "storage".
+var VerifC20ExternalHows = [][2]string{
+	{"none", "none"}, {"nil", "none"}, {"storage_then_nil", "none"},
+	{"empty_literal", "resolve"}, {"resolve_only", "resolve"}, {"storage_then_resolve", "resolve"},
+	{"storage", "storage"}, {"resolve_then_storage", "storage"},
+}
+
+// VerifC20SetExternal drives Server.SetExternalLocation in one of the ways of
+// VerifC20ExternalHows.
+func VerifC20SetExternal(srv *Server, how string) {
+	storage := func() *ExternalLocationConfig { return DefaultExternalLocationConfig(verifC20Storage{}) }
+	resolve := func() *ExternalLocationConfig { return DefaultExternalLocationConfig(nil) }
+	switch how {
+	case "none":
+	case "nil":
+		srv.SetExternalLocation(nil)
+	case "storage_then_nil":
+		srv.SetExternalLocation(storage())
+		srv.SetExternalLocation(nil)
+	case "empty_literal":
+		srv.SetExternalLocation(&ExternalLocationConfig{})
+	case "resolve_only":
+		srv.SetExternalLocation(resolve())
+	case "storage_then_resolve":
+		srv.SetExternalLocation(storage())
+		srv.SetExternalLocation(resolve())
+	case "storage":
+		srv.SetExternalLocation(storage())
+	case "resolve_then_storage":
+		srv.SetExternalLocation(resolve())
+		srv.SetExternalLocation(storage())
+	default:
+		panic("verif_c20: unknown external how " + how)
+	}
+}
+
 // verifC20Tracked reports whether a (lower-cased) response header name belongs
 // to the correlation / capability / rejection / session families C20 is about.
 func verifC20Tracked(lower string) bool {
@@ -193,11 +232,14 @@ func VerifC20SplitExpose(v string) []string {
 // verifC20Point returns, for one lattice point, (emitted, exposed): the tracked
 // header names the real writer functions put on a response under that
 // configuration, and the names addCorsHeaders lists as exposed.
-func verifC20Point(t VerifC20Toggles) (map[string]bool, map[string]bool) {
+func verifC20Point(t VerifC20Toggles, resolveOnly bool) (map[string]bool, map[string]bool) {
 	srv := NewServer()
 	h := NewHttpServer(srv)
 	if err := VerifC20Apply(srv, h, t, nil, nil, nil); err != nil {
 		panic(err)
+	}
+	if resolveOnly && !t.Ext {
+		VerifC20SetExternal(srv, "resolve_only")
 	}
 	emitted := map[string]bool{strings.ToLower(requestIDHeader): true} // ServeHTTP's first statement
 	newReq := func(body string) *http.Request {
@@ -297,13 +339,17 @@ func init() {
 		emit := make([]map[string]bool, len(points))
 		expo := make([]map[string]bool, len(points))
 		all := map[string]bool{}
+		// the same points once more with a resolve-only external-location
+		// config (present, no Storage) wherever the Ext toggle is off
+		emitR := make([]map[string]bool, len(points))
+		expoR := make([]map[string]bool, len(points))
 		for i, m := range points {
-			emit[i], expo[i] = verifC20Point(VerifC20FromMask(m))
-			for k := range emit[i] {
-				all[k] = true
-			}
-			for k := range expo[i] {
-				all[k] = true
+			emit[i], expo[i] = verifC20Point(VerifC20FromMask(m), false)
+			emitR[i], expoR[i] = verifC20Point(VerifC20FromMask(m), true)
+			for _, s := range []map[string]bool{emit[i], expo[i], emitR[i], expoR[i]} {
+				for k := range s {
+					all[k] = true
+				}
 			}
 		}
 		universe := make([]string, 0, len(all))
@@ -330,6 +376,10 @@ func init() {
 		rows := make([]string, len(points))
 		for i, m := range points {
 			rows[i] = be(m)[2:] + be(mask(emit[i])) + be(mask(expo[i]))
+		}
+		rowsR := make([]string, len(points))
+		for i, m := range points {
+			rowsR[i] = be(m)[2:] + be(mask(emitR[i])) + be(mask(expoR[i]))
 		}
 		// prefix of the per-session echo headers, recovered from what the real
 		// writer emits for the probe name
@@ -370,6 +420,7 @@ func init() {
 			verifBytes("h_retry_after", "retry-after"),
 			verifList("c20_universe", universe),
 			verifList("c20_table", rows),
+			verifList("c20_table_resolve", rowsR),
 		}
 	})
 }
